@@ -1,1 +1,298 @@
-//! C04 - not built yet
+//! C04 - emitted DirectX HLSL is accepted by the front end and is a fixpoint.
+//!
+//! Differential monitor: T1 = compile(P, DirectX, no pipelines); compile(T1) must succeed, reproduce T1
+//! byte for byte and put every resource on the same binding slot.
+
+use crate::corpus;
+use crate::gen::{decl, prog};
+use crate::json::Json;
+use crate::report::{Ctx, Report};
+use crate::rng::{hash_str, Rng};
+use crate::rs::{self, Files, Mode, Opts, Outcome, Tgt};
+use crate::CheckDef;
+
+pub fn def() -> CheckDef {
+    CheckDef {
+        id: "C04",
+        salt: 0xC04,
+        rule: "inputs: every entry file of the tests/ corpus (with its defines), every RSSL snippet of the repository's unit tests, generated \
+               executable programs (gen::prog) and generated declaration programs (gen::decl: resources of every object kind, cbuffers, \
+               register/space annotations, bind groups, static samplers, templates, enums, namespaces). For each accepted input P: \
+               T1 = compile(P, HlslForDirectX, no_pipeline); T2 = compile(T1, ...) must exist, equal T1 byte for byte and report the same \
+               (name, group, slot, type, count) bindings. evaluations = second-generation compiles observed; distinct_nontrivial = distinct \
+               accepted inputs by content hash",
+        assumptions: &["says nothing about DXC accepting T1: only rssl's own front end is available in the sandbox"],
+        min_distinct: (300, 3000),
+        deadline_s: (90.0, 900.0),
+        run,
+        replay,
+    }
+}
+
+fn bindings_of(p: &rs::Pipe) -> Vec<String> {
+    let mut out = Vec::new();
+    for (gi, g) in p.metadata.bind_groups.iter().enumerate() {
+        for b in &g.bindings {
+            // the property speaks about slots: the emitted DirectX text legitimately lowers buffer addresses to byte buffers and
+            // carries no bindless attribute, so descriptor type and the bindless flag are not compared
+            out.push(format!("group{} {} {:?} count={:?}", gi, b.name, b.api_binding, b.descriptor_count));
+        }
+        if let Some(ic) = &g.inline_constants {
+            out.push(format!("group{} inline {:?}", gi, ic));
+        }
+    }
+    out
+}
+
+/// Class of a rejection message: text after "error:" up to the first quote/number
+fn diag_class(d: &str, emitted: &str) -> String {
+    let first = d.lines().next().unwrap_or("");
+    // `a < b && c > (d)`: the parser tries template arguments followed by a call (a known, recorded defect of the parser)
+    let located_line = d.lines().nth(1).map(|l| l.to_string());
+    // an unlocated diagnostic: look at every line of the emitted text
+    let candidates: Vec<String> = match located_line {
+        Some(l) => vec![l],
+        None => emitted.lines().map(|l| l.to_string()).collect(),
+    };
+    for src_line in &candidates {
+        if (first.contains("failed to parse source") || first.contains("function call applied to non-function type") || first.contains("could not be evaluated as a constant expression"))
+            && template_like(src_line) {
+            return "template-argument-ambiguity".into();
+        }
+    }
+    let msg = first.split("error:").nth(1).unwrap_or(first).trim();
+    let mut out = String::new();
+    for c in msg.chars() {
+        if c == '\'' || c == '`' || c == '(' || c.is_ascii_digit() {
+            break;
+        }
+        out.push(c);
+    }
+    out.trim().chars().take(60).collect()
+}
+
+pub fn examine(files: &Files, entry: &str, defines: &[(String, String)], origin: &str, report: &mut Report) -> bool {
+    let mut opts = Opts::new(Tgt::Dx, Mode::NoPipeline);
+    opts.defines = defines.to_vec();
+    let first = rs::compile(files, entry, &opts);
+    let p1 = match &first {
+        Outcome::Ok(p) if p.len() == 1 => &p[0],
+        Outcome::Ok(_) => return false,
+        Outcome::Diag(_) => {
+            report.count("input:rejected");
+            return false;
+        }
+        Outcome::Panic(c) => {
+            report.count(&format!("skipped:panic:{}", c.signature()));
+            return false;
+        }
+        Outcome::Budget { .. } => {
+            report.count("skipped:budget");
+            return false;
+        }
+    };
+    report.count("input:accepted");
+    let t1 = p1.source.clone();
+    let second = rs::compile_text(&t1, &Opts::new(Tgt::Dx, Mode::NoPipeline));
+    report.evaluations += 1;
+    let witness = |extra: Json| -> Json {
+        let small = files.total_len() <= 32 * 1024;
+        let mut w = Json::obj().set("origin", origin).set("entry", entry).set("first_generation", t1.as_str());
+        if small {
+            w.put("files", files.to_json());
+        }
+        w.put("defines", Json::Arr(defines.iter().map(|(a, b)| Json::Arr(vec![Json::str(a), Json::str(b)])).collect()));
+        w.put("observed", extra);
+        w
+    };
+    match &second {
+        Outcome::Ok(p) if p.len() == 1 => {
+            let t2 = &p[0].source;
+            if *t2 != t1 {
+                let (l1, l2) = first_difference(&t1, t2);
+                let class = difference_class(&l1, &l2);
+                report.violation(
+                    &format!("not-a-fixpoint:{}", class),
+                    &format!("second generation differs ({}): `{}` became `{}`", origin, l1.trim(), l2.trim()),
+                    witness(Json::obj().set("line_first", l1).set("line_second", l2)),
+                );
+            } else {
+                report.count("fixpoint:byte-identical");
+            }
+            let (b1, b2) = (bindings_of(p1), bindings_of(&p[0]));
+            if b1 != b2 {
+                report.violation(
+                    "bindings-moved",
+                    &format!("resources are on different slots after re-reading the emitted text ({})", origin),
+                    witness(Json::obj().set("first", Json::from(b1)).set("second", Json::from(b2))),
+                );
+            } else if !b1.is_empty() {
+                report.count("bindings:compared");
+                report.count_n("bindings:resources", b1.len() as u64);
+            }
+        }
+        Outcome::Ok(_) => report.inconclusive("no-pipeline mode returned several results"),
+        Outcome::Diag(d) => {
+            report.violation(
+                &format!("emitted-rejected:{}", diag_class(d, &t1)),
+                &format!("the emitted DirectX HLSL is not accepted by the front end ({}): {}", origin, d.lines().take(3).collect::<Vec<_>>().join(" | ")),
+                witness(Json::obj().set("diagnostic", d.as_str())),
+            );
+        }
+        Outcome::Panic(c) => {
+            // the emitted text makes the front end panic: still "not accepted"
+            report.violation(
+                &format!("emitted-panics:{}", c.signature()),
+                &format!("re-reading the emitted HLSL panics at {} ({})", c.location, origin),
+                witness(Json::obj().set("panic", c.message.as_str()).set("location", c.location.as_str())),
+            );
+        }
+        Outcome::Budget { .. } => report.count("skipped:budget-second"),
+    }
+    true
+}
+
+/// `x < ... > (`: a less-than, later a greater-than directly followed by an opening parenthesis
+fn template_like(line: &str) -> bool {
+    if let Some(lt) = line.find(" < ") {
+        let rest = &line[lt + 3..];
+        return rest.contains(" > (");
+    }
+    false
+}
+
+fn first_difference(a: &str, b: &str) -> (String, String) {
+    let mut la = a.lines();
+    let mut lb = b.lines();
+    loop {
+        match (la.next(), lb.next()) {
+            (Some(x), Some(y)) if x == y => continue,
+            (x, y) => return (x.unwrap_or("<end of text>").to_string(), y.unwrap_or("<end of text>").to_string()),
+        }
+    }
+}
+
+/// What kind of token differs on the first differing line
+fn difference_class(a: &str, b: &str) -> String {
+    // `const float f() { return 0; }`: the second generation adds a cast to the modified return type (recorded finding)
+    for m in ["(const ", "(unorm ", "(snorm ", "(volatile ", "(row_major ", "(column_major "] {
+        if b.contains(m) && !a.contains(m) {
+            return "modifier-cast-inserted".into();
+        }
+    }
+    let ta: Vec<&str> = a.split_whitespace().collect();
+    let tb: Vec<&str> = b.split_whitespace().collect();
+    for (x, y) in ta.iter().zip(&tb) {
+        if x != y {
+            let lit = |s: &str| s.trim_start_matches(|c: char| c == '(' || c == '-').chars().next().map(|c| c.is_ascii_digit()).unwrap_or(false);
+            if lit(x) && lit(y) {
+                return "literal".into();
+            }
+            if x.contains("register") || y.contains("register") {
+                return "register-annotation".into();
+            }
+            let ident = |s: &str| s.chars().next().map(|c| c.is_alphabetic() || c == '_').unwrap_or(false);
+            if ident(x) && ident(y) {
+                return "identifier".into();
+            }
+            return "tokens".into();
+        }
+    }
+    if ta.len() != tb.len() {
+        return "line-structure".into();
+    }
+    "layout".into()
+}
+
+enum Case {
+    Corpus(usize, usize),
+    Snippet(usize),
+    Prog(u64),
+    Decl(u64),
+}
+
+fn run(ctx: &Ctx) -> Report {
+    let sets = corpus::load();
+    let snippets = corpus::test_snippets();
+    let mut cases: Vec<Case> = Vec::new();
+    for (si, s) in sets.iter().enumerate() {
+        for ei in 0..s.entries.len() {
+            cases.push(Case::Corpus(si, ei));
+        }
+    }
+    for i in 0..snippets.len() {
+        cases.push(Case::Snippet(i));
+    }
+    for i in 0..ctx.tier.pick(1500, 30_000) {
+        cases.push(Case::Prog(i));
+    }
+    for i in 0..ctx.tier.pick(1500, 30_000) {
+        cases.push(Case::Decl(i));
+    }
+    let seed = ctx.seed;
+    let mut report = crate::par::run_cases(ctx, cases.len() as u64, |index, report| {
+        let (files, entry, defines, origin, features): (Files, String, Vec<(String, String)>, String, Vec<String>) = match &cases[index as usize] {
+            Case::Corpus(si, ei) => {
+                let s = &sets[*si];
+                (s.files.clone(), s.entries[*ei].clone(), s.defines.clone(), format!("corpus:{}:{}", s.name, s.entries[*ei]), vec!["corpus".into()])
+            }
+            Case::Snippet(i) => (Files::single("main.rssl", &snippets[*i]), "main.rssl".into(), Vec::new(), format!("unit-test-snippet:{}", i), vec!["unit-test-snippet".into()]),
+            Case::Prog(i) => {
+                let mut rng = Rng::for_case(seed, 0x4001, *i);
+                let p = prog::generate(&mut rng, prog::Config::default());
+                (Files::single("main.rssl", &p.render()), "main.rssl".into(), Vec::new(), format!("gen::prog:{}", i), p.features.iter().map(|f| f.to_string()).collect())
+            }
+            Case::Decl(i) => {
+                let mut rng = Rng::for_case(seed, 0x4002, *i);
+                let d = decl::generate(&mut rng, 10, 3);
+                (Files::single("main.rssl", &d.text), "main.rssl".into(), Vec::new(), format!("gen::decl:{}", i), d.features.clone())
+            }
+        };
+        if examine(&files, &entry, &defines, &origin, report) {
+            let text = files.0.iter().find(|f| f.0 == entry).map(|f| f.1.as_str()).unwrap_or("");
+            report.distinct(hash_str(text) ^ hash_str(&origin.split(':').next().unwrap_or("")));
+            for f in features {
+                report.count(&format!("feature:{}", f));
+            }
+            if report.want_sample() && index % 97 == 5 {
+                report.sample(Json::obj().set("origin", origin).set("input_prefix", text.chars().take(600).collect::<String>()));
+            }
+        }
+    });
+    if snippets.len() < 50 {
+        report.inconclusive("could not read the unit-test snippets from /repo");
+    }
+    report
+}
+
+fn replay(_ctx: &Ctx, witness: &Json) -> Report {
+    let mut report = Report::new();
+    let entry = witness.get_str("entry").unwrap_or("main.rssl").to_string();
+    let mut defines = Vec::new();
+    if let Some(d) = witness.get("defines").and_then(|d| d.as_arr()) {
+        for kv in d {
+            if let Some(kv) = kv.as_arr() {
+                if kv.len() == 2 {
+                    defines.push((kv[0].as_str().unwrap_or("").to_string(), kv[1].as_str().unwrap_or("").to_string()));
+                }
+            }
+        }
+    }
+    let files = match witness.get("files") {
+        Some(f) => Files::from_json(f),
+        None => {
+            // corpus witness: origin = corpus:<set>:<entry>
+            let origin = witness.get_str("origin").unwrap_or("");
+            let set = origin.split(':').nth(1).unwrap_or("");
+            match corpus::load().into_iter().find(|s| s.name == set) {
+                Some(s) => s.files,
+                None => {
+                    report.inconclusive("witness has no files and names no corpus set");
+                    return report;
+                }
+            }
+        }
+    };
+    examine(&files, &entry, &defines, witness.get_str("origin").unwrap_or("replay"), &mut report);
+    report
+}
